@@ -29,12 +29,11 @@ TReset == /\ IsEvent("Reset")
              /\ needDict' = (T.presetlen = 0)
           /\ dstart' = 0 /\ reps' = <<0, 0, 0, 0>> /\ lzst' = 0 /\ dictSize' = T.dict /\ ended' = FALSE
           /\ needProps' = TRUE /\ needState' = FALSE /\ cprod' = 0 /\ props' = -1 /\ ch' = NoChunk /\ fin' = FALSE
+          /\ cfgp' = PropsByte(T.lc, T.lp, T.pb)
           /\ cfg' = T
 
 TChunkLzma == /\ IsEvent("Chunk") /\ T.kind = "lzma"
               /\ LzmaChunkBegin(T.ctl, T.usize, T.csize, T.props, Bytes)
-              \* the props byte tells the truth about the configured lc/lp/pb
-              /\ T.props # -1 => T.props = PropsByte(cfg.lc, cfg.lp, cfg.pb)
               /\ UNCHANGED cfg
 
 TLits  == IsEvent("Lits") /\ Bytes /\ InLzmaChunk(Len(T.b)) /\ Lits(T.b) /\ UNCHANGED <<l2vars, cfg>>
@@ -58,11 +57,18 @@ TChunkEndMarker == /\ IsEvent("Chunk") /\ T.kind = "end"
                    /\ EndChunk
                    /\ UNCHANGED cfg
 
+\* lzma_filters_update() with new lc/lp/pb was called when `at` bytes of this LZMA2 stream's input had been
+\* flushed out: the chunk boundary must be exactly there
+TUpdate == /\ IsEvent("Update")
+           /\ cprod = T.at
+           /\ PropsUpdate(PropsByte(T.lc, T.lp, T.pb))
+           /\ UNCHANGED cfg
+
 \* an .xz Stream with no Block at all: only for empty input
 TEmpty == /\ IsEvent("Empty")
           /\ cfg.inlen = 0 /\ cprod = 0 /\ ch = NoChunk /\ ~fin
           /\ fin' = TRUE
-          /\ UNCHANGED <<needDict, needProps, needState, cprod, cavail, props, ch>>
+          /\ UNCHANGED <<needDict, needProps, needState, cprod, cavail, props, cfgp, ch>>
           /\ UNCHANGED <<lzvars, cfg>>
 
 TBias == /\ IsEvent("Bias")
@@ -79,7 +85,7 @@ TEnd == /\ IsEvent("End")
         /\ UNCHANGED <<lzvars, l2vars, cfg>>
 
 TNext == TReset \/ TChunkLzma \/ TLits \/ TMatch \/ TRep \/ TSRep \/ TAgg \/ TChunkEnd \/ TChunkUnc
-         \/ TChunkEndMarker \/ TEmpty \/ TBias \/ TEnd
+         \/ TChunkEndMarker \/ TUpdate \/ TEmpty \/ TBias \/ TEnd
 TSpec == TInit /\ [][TNext]_tvars
 TraceAccepted == TLCGet("stats").diameter - 1 = Len(TraceLog)
 =============================================================================
